@@ -216,6 +216,9 @@ var mcPrograms = map[string]struct {
 var subKinds = []string{"with", "withres", "withgroup", "get", "call"}
 var apiKinds = []string{"reset", "resetall", "token", "tokenid", "tokenreset", "event"}
 
+// free-running programs also start query events (gate replays keep to the model's API callers)
+var apiKindsFree = append(append([]string{}, apiKinds...), "queryevent", "queryevent")
+
 // replayKinds are the submission kinds whose runWith executes on the producer's own goroutine
 var replayKinds = []string{"with", "withres", "withgroup"}
 
@@ -385,7 +388,7 @@ func Run(c *core.Ctx) {
 			n := 5 + rng.Intn(25)
 			var subs []Sub
 			for k := 0; k < n; k++ {
-				g := []string{"g1", "g1", "g2", "g3", "par", "g4", "g4", "g5", "g5"}[rng.Intn(9)]
+				g := []string{"g1", "g1", "g2", "g3", "par", "g4", "g4", "g5", "g5", "g6", "g6"}[rng.Intn(11)]
 				kind := subKinds[rng.Intn(len(subKinds))]
 				if g == "par" && kind == "withgroup" {
 					kind = "withres"
@@ -398,11 +401,23 @@ func Run(c *core.Ctx) {
 			prog.Producers[fmt.Sprintf("p%d", p+1)] = subs
 		}
 		for a := 0; a < rng.Intn(3); a++ {
-			prog.Api = append(prog.Api, apiKinds[rng.Intn(len(apiKinds))])
+			prog.Api = append(prog.Api, apiKindsFree[rng.Intn(len(apiKindsFree))])
 		}
 		add(Job{Mode: "stress", Seed: c.Seed*1000 + int64(i), Prog: prog, Src: "stress"})
 	}
 
+	// (query events pending at Shutdown) query events are started and the service is stopped before they
+	// expire: the expiry then meets a stopping or stopped service
+	for i := 0; i < c.Pick(12, 80); i++ {
+		prog := Program{Workers: 1 + rng.Intn(3), InCh: 2, Producers: map[string][]Sub{}, Shutdown: true, Cycles: 1 + i%2, SdDelayUs: 200 + rng.Intn(1500)}
+		var subs []Sub
+		for k := 0; k < 6+rng.Intn(10); k++ {
+			subs = append(subs, Sub{Kind: []string{"with", "get", "pause"}[rng.Intn(3)], Group: []string{"g1", "g1", "g2"}[rng.Intn(3)], Slow: k%3 == 0})
+		}
+		prog.Producers["p1"] = subs
+		prog.Api = []string{"queryevent", "queryevent", "queryevent"}[:1+rng.Intn(3)]
+		add(Job{Mode: "stress", Seed: c.Seed*1000 + 600 + int64(i), Prog: prog, Src: "query-expiry"})
+	}
 	// (queue growth) one worker held by slow callbacks while work for many other groups piles up: the
 	// work queue grows far beyond the in-channel size (the size of its initial buffer)
 	for i := 0; i < c.Pick(8, 40); i++ {
@@ -429,7 +444,7 @@ func Run(c *core.Ctx) {
 			prog.Producers[fmt.Sprintf("p%d", p+1)] = subs
 		}
 		if rng.Intn(2) == 0 {
-			prog.Api = []string{apiKinds[rng.Intn(len(apiKinds))]}
+			prog.Api = []string{apiKindsFree[rng.Intn(len(apiKindsFree))]}
 		}
 		add(Job{Mode: "stress", Seed: c.Seed*1000 + 800 + int64(i), Prog: prog, Src: "immediate-restart"})
 	}
@@ -449,7 +464,7 @@ func Run(c *core.Ctx) {
 		if i%2 == 1 {
 			prog.Workers = 2
 		}
-		hot := []string{"g1", "g2", "g4"}[rng.Intn(3)]
+		hot := []string{"g1", "g2", "g4", "g6"}[rng.Intn(4)]
 		mk := func(n int, groups []string, kinds []string) []Sub {
 			var subs []Sub
 			for k := 0; k < n; k++ {
